@@ -318,7 +318,9 @@ def check_xconfig(allfacts):
             if short in ACCEPTED_XCONFIG and ("InputIndexer" in fn):
                 r.ok(key + " (accepted)", ACCEPTED_XCONFIG[short], nontrivial=False)
                 continue
-            if cfg == "alloc" and False:
+            if cfg == "utf16" and fn in {a["owner"] for a in base.cfg_attrs + f.cfg_attrs if "utf16" in a["cfg"]}:
+                r.ok(key + " (accepted)", "the function carries #[cfg(feature = \"utf16\")] code: its source differs by design "
+                     "and the utf16 configuration's own rules (SIBPOS, LBSEQ, PLUMB, PANICS) analyse it", nontrivial=False)
                 continue
             a, b = json.dumps(nb[fn]), json.dumps(t)
             i = next((i for i, (x, y) in enumerate(zip(a, b)) if x != y), min(len(a), len(b)))
